@@ -46,3 +46,56 @@ Theorem C19_http_summary_of_route : forall (uuid_of : Params.str -> option nat),
 Proof. exact HttpProofs.http_summary_of_route. Qed.
 Print Assumptions C19_http_summary_of_route.
 
+
+(* tie to the source, the RENDERER of /v2/summary: the keys of a line object (lineSummariesToJson), of the three answer
+   objects and of their "result" objects (result_to_v2_summary.cpp) are read AS THEY ARE NOW by tools/gen_render.py
+   (gen/Render.v) - which member / constant feeds "nbRoutes" (0, result.alternatives.size(), 1), which accumulator feeds
+   "lines" (fed with every alternative / with the single result), which member feeds "alternativeCount" - and executed by
+   the interpreter of RenderJson.v; the accumulator itself is Render.summary_lines.  The JSON of the model's summary
+   answer is what the source renders, and it carries the counts of C19 under the keys the renderer uses *)
+Require Coq.Strings.String.
+Require TrV.RenderJson TrV.gen.Render.
+From TrV Require Proofs.RenderTie.
+Module RJ.
+  Import Coq.Strings.String TrV.RenderJson TrV.Proofs.RenderTie.
+  Import ListNotations.
+  Local Open Scope string_scope.
+  Local Open Scope list_scope.
+  Local Open Scope Z_scope.
+  Theorem C19_json_summary_line_is_code : forall l, json_of_line l = render_line GR.gen_render_summary_line l.
+  Proof. exact summary_line_tie. Qed.
+  Theorem C19_json_summary_is_code : forall d q,
+    (forall rs, json_of_summary (Z.of_nat (List.length rs)) (summary_lines d rs) q =
+                render_summary GR.gen_render_summary_query GR.gen_render_summary_line GR.gen_render_summary_alt_top
+                               GR.gen_render_summary_alt_result d false rs q) /\
+    (forall r, json_of_summary 1 (summary_lines d [r]) q =
+               render_summary GR.gen_render_summary_query GR.gen_render_summary_line GR.gen_render_summary_single_top
+                              GR.gen_render_summary_single_result d true [r] q) /\
+    json_of_summary 0 [] q =
+    render_summary GR.gen_render_summary_query GR.gen_render_summary_line GR.gen_render_summary_noroute_top
+                   GR.gen_render_summary_noroute_result d false [] q.
+  Proof. intros d q. exact (conj (fun rs => summary_alt_tie d rs q) (conj (fun r => summary_single_tie d r q) (summary_noroute_tie d q))). Qed.
+  (* on the wire (RenderJson.summary_wire_ok): "nbRoutes" = number of routes, and the line objects of "lines" carry, in
+     order, the lines of Render.summary_lines under "lineUuid" and their counts under "alternativeCount" *)
+  Theorem C19_json_summary_counts : forall d,
+    (forall rs q, summary_wire_ok (render_summary GR.gen_render_summary_query GR.gen_render_summary_line GR.gen_render_summary_alt_top
+                                                  GR.gen_render_summary_alt_result d false rs q)
+                                  (Z.of_nat (List.length rs)) (summary_lines d rs)) /\
+    (forall r q, summary_wire_ok (render_summary GR.gen_render_summary_query GR.gen_render_summary_line GR.gen_render_summary_single_top
+                                                 GR.gen_render_summary_single_result d true [r] q)
+                                 1 (summary_lines d [r])) /\
+    (forall q, summary_wire_ok (render_summary GR.gen_render_summary_query GR.gen_render_summary_line GR.gen_render_summary_noroute_top
+                                               GR.gen_render_summary_noroute_result d false [] q) 0 []).
+  Proof. exact json_summary_counts. Qed.
+  (* ... and these are the bodies the handler model sends for /v2/summary (Http.render with summary = true) *)
+  Theorem C19_json_http_summary_bodies : forall d q,
+    (forall x, json_of_body false (resp_body (render d true q (ARoute (Ok x)))) = Some (code_summary_single d (fst x) q)) /\
+    (forall x, json_of_body false (resp_body (render d true q (AAlt (Ok x)))) = Some (code_summary_alt d (fst x) q)) /\
+    (forall r, json_of_body false (resp_body (render d true q (ARoute (NoRouting r)))) = Some (code_summary_noroute d q)) /\
+    (forall r, json_of_body false (resp_body (render d true q (AAlt (NoRouting r)))) = Some (code_summary_noroute d q)).
+  Proof. intros d q. destruct (http_render_json d q) as (_ & _ & _ & _ & H5 & H6 & H7 & H8 & _). exact (conj H5 (conj H6 (conj H7 H8))). Qed.
+End RJ.
+Print Assumptions RJ.C19_json_summary_line_is_code.
+Print Assumptions RJ.C19_json_summary_is_code.
+Print Assumptions RJ.C19_json_summary_counts.
+Print Assumptions RJ.C19_json_http_summary_bodies.
